@@ -20,7 +20,8 @@ EXPLANATION = (
     "use; (R6) every solve re-initialises: info.reset and default_start precede the loop, each arm writes all of "
     "x,s,z,tau,kappa, and set_identity_scaling wholly rewrites every scaling field the KKT update reads, and every cone's unit_initialization wholly overwrites both of its vectors on every path; (R7) the units premises: every stage keeps the data in the coordinates the equilibration records; (R8) the LDL back ends agree on the value-update entry points (C08.R5 re-run); (R9) cone rectification of the equilibration (C10.R4 re-run)."
     " R6 also: a vector that unit_initialization copies into the other one is final when copied (no later write to the source)."
-    " (R10) the interior shift of the start point is the three-way table of C07.R5 (the zero-cone slack is forced to zero on every branch); (R11) solve_initial_point produces x, s, z from the data on every completing path.")
+    " (R10) the interior shift of the start point is the three-way table of C07.R5 (the zero-cone slack is forced to zero on every branch); (R11) solve_initial_point produces x, s, z from the data on every completing path."
+    " (R12) to_triu, through which a full symmetric P is normalised, keeps exactly the upper triangle with a cumulative colptr (C16.R7 re-run).")
 ASSUMPTIONS = [
     'rustc MIR construction and trait resolution are correct',
     'IndexSet/IndexMap iterate in insertion order; Vec/slice iteration is ordered',
@@ -472,6 +473,9 @@ def run(ctx, rep, tier):
         from . import steplen
         steplen.interior_shift(rep, ctx.facts(cfg), tag, 'C05.R10')
         initial_point_writes(rep, ctx.facts(cfg), tag)
+    # "P given full or upper-triangular": the full form goes through to_triu (C16.R7 re-run)
+    from . import c16
+    c16.triangle(rep, ctx.facts('default'), '', 'C05.R12')
     if tier == 'thorough':
         from . import witness
         witness.run(rep, 'C05.R4', ['send', 'stream_sync'])
